@@ -593,6 +593,5 @@ func main() {
 		done()
 	}
 
-	stopProf()
 	r.Finish()
 }
